@@ -54,6 +54,12 @@ def opOf (t : String) : PyOp :=
   | [k, a] => ⟨k, .single (a.toInt?.getD 0)⟩
   | _ => ⟨t, .single 0⟩
 
+/-- `7/4` or `3` -/
+def ratOf (t : String) : Rat :=
+  match t.splitOn "/" with
+  | [a, b] => (a.toInt?.getD 0 : Rat) / (b.toInt?.getD 1 : Rat)
+  | _ => (t.toInt?.getD 0 : Rat)
+
 def answer (w : List String) : String :=
   let i (k : Nat) : Int := (w.getD k "0").toInt?.getD 0
   let fuel : Nat := 1000000
@@ -70,6 +76,11 @@ def answer (w : List String) : String :=
     match mixed_steps_tabulation (i 1) (i 2) with
     | .ok t => String.intercalate ";" (t.map (fun row => String.intercalate "," (row.map (fun c => s!"{c.1} {c.2.1} {c.2.2}"))))
     | .error e => "raise:" ++ errStr e
+  | some "beta" =>
+    match beta (i 1) (i 2) with
+    | .ok q => if q.den = 1 then toString q.num else s!"{q.num}/{q.den}"
+    | .error e => "raise:" ++ errStr e
+  | some "mxrr" => showInt (mxrr_close_formula fuel (i 1) (ratOf (w.getD 2 "1")) (ratOf (w.getD 3 "2")) (ratOf (w.getD 4 "2")))
   | some "argmin" => showInt (argmin ((w.drop 1).map (fun s => s.toInt?.getD 0)))
   | some "singleMemory" => showEvs (singleMemory_iterator fuel 0 0 none (i 1) (i 2))
   | some "singleDisk" => showEvs (singleDisk_iterator fuel 0 0 none (w.getD 1 "0" = "1") false (i 2) (i 3))
